@@ -71,7 +71,6 @@ example : Seg_WF { Seg.fresh .base with timedelta := 3, payload := [1, 2, 3], se
   simp [Seg_WF, Seg.fresh, effPayload]
 example : Seg_WF { Seg.fresh .rs232 with block_status := 0xFFFF, sync_bytes := [1, 2], data := [9] } := by
   simp [Seg_WF, Seg.fresh, effPayload]
-
 /-! ### typed segments: decode-only layouts -/
 
 /-- a plain segment object carrying `data`, used to lay out typed data by hand -/
@@ -88,6 +87,21 @@ theorem rawSeg_bytes (td ec fl : Nat) (data : Bytes) :
   have : effPayload (rawSeg td ec fl data) = data := rfl
   rw [this]
   exact segBytesL_eq_spec td ec fl data
+
+/-- joint witnesses for `NPDSegment_roundtrip` / `decodedSeg_bytes` with a TYPED decoding class (`hok`, `hk`):
+    a 1553 layout, an ACQ layout, an RS-232 object; and what `TypedOK` excludes: data shorter than the typed
+    header (the code raises `struct.error` there) -/
+example : Seg_WF (rawSeg 1 2 3 [0, 5, 1, 2, 9, 9]) ∧ TypedOK .mil1553 (rawSeg 1 2 3 [0, 5, 1, 2, 9, 9]) ∧
+    (Kind.mil1553 ≠ .rs232 ∨ (rawSeg 1 2 3 [0, 5, 1, 2, 9, 9]).kind = .rs232) :=
+  ⟨by simp [Seg_WF, rawSeg, Seg.fresh, effPayload], rfl, Or.inl (by decide)⟩
+example : Seg_WF (rawSeg 1 2 3 [7, 0x80, 0, 0, 1, 2]) ∧ TypedOK .acq (rawSeg 1 2 3 [7, 0x80, 0, 0, 1, 2]) :=
+  ⟨by simp [Seg_WF, rawSeg, Seg.fresh, effPayload], rfl⟩
+example : TypedOK .rs232 { Seg.fresh .rs232 with block_status := 0xFFFF, sync_bytes := [1, 2], data := [9] } ∧
+    (Kind.rs232 ≠ .rs232 ∨ ({ Seg.fresh .rs232 with block_status := 0xFFFF, sync_bytes := [1, 2], data := [9] } : Seg).kind = .rs232) :=
+  ⟨rfl, Or.inr rfl⟩
+example : ¬ TypedOK .mil1553 (rawSeg 1 2 3 [0, 5, 1]) := by
+  intro h; have : (Except.ok () : R Unit).isOk = false := h ▸ (by decide); exact absurd this (by decide)
+
 
 /-- bytes laid out as a MIL-STD-1553 segment — segment header, block status(16), gap 1(8), gap 2(8),
     message data — decode into exactly `(blockstatus, gap1, gap2, data)` -/
@@ -114,6 +128,11 @@ theorem MIL1553Segment_decode_layout (td ec fl bs g1 g2 : Nat) (data rest : Byte
   show ((Seg.unpack1553 (withBase (Seg.fresh .mil1553) td ec fl pl)).1, _) = _
   rw [hty]
   rfl
+
+/-- a concrete instance (all hypotheses jointly): `ABCD 11 22 09 09` after a segment header decodes to
+    block status 0xABCD, gap1 0x11, gap2 0x22 (the slot slip of defect D02 would give gap1 = 0) -/
+example := MIL1553Segment_decode_layout 1 2 3 0xABCD 0x11 0x22 [9, 9] [7] (by omega) (by omega) (by omega)
+  (by simp) (by omega) (by omega) (by omega)
 
 /-- bytes laid out as an ACQ segment — sub-frame id(8), a byte whose top bit is CAL, reserved(16),
     16-bit words — decode into `(sfid, cal, words)`, whatever the seven low bits and the reserved word are -/
@@ -147,6 +166,9 @@ theorem ACQSegment_decode_layout (td ec fl sfid cal low7 reserved : Nat) (words 
   rw [hty]
   rfl
 
+example := ACQSegment_decode_layout 1 2 3 0x42 1 0x55 0xBEEF [1, 65535] [7] (by omega) (by omega) (by omega)
+  (by simp) (by omega) (by omega) (by omega) (by omega) (by simp)
+
 /-- bytes laid out as an RS-232 segment — block status(16) whose low three bits `n` count the sync
     bytes, `n` sync bytes, data — decode into `(block_status, sync_bytes[0:n], data)` -/
 theorem RS232Segment_decode_layout (td ec fl hi13 : Nat) (sync : List Nat) (data rest : Bytes)
@@ -176,6 +198,45 @@ theorem RS232Segment_decode_layout (td ec fl hi13 : Nat) (sync : List Nat) (data
   show ((Seg.unpackRS232 (withBase (Seg.fresh .rs232) td ec fl pl)).1, _) = _
   rw [hty]
   rfl
+
+example := RS232Segment_decode_layout 1 2 3 0x1FFF [0xFE, 0xFF] [9, 8, 7] [] (by omega) (by omega) (by omega)
+  (by simp) (by omega) (by simp) (by simp)
+
+/-- the typed fields of an RS-232 segment OBJECT through pack → unpack (what `decodedSeg .rs232 g` holds):
+    sync bytes and data come back; `block_status` comes back with its low three bits REPLACED by the number of
+    sync bytes and reduced to 16 bits (`pack` does `(block_status & 0xFFF8) + len(sync_bytes)`), so it is
+    preserved exactly when it fits 16 bits and its low three bits already are that count -/
+theorem RS232Segment_roundtrip_fields (g : Seg) (rest : Bytes) (h : Seg_WF g) (hk : g.kind = .rs232) :
+    ∃ b, (Seg.pack g).2 = .ok b ∧ (Seg.unpack (Seg.fresh .rs232) (b ++ rest)).2 = .ok rest ∧
+      (Seg.unpack (Seg.fresh .rs232) (b ++ rest)).1.sync_bytes = g.sync_bytes ∧
+      (Seg.unpack (Seg.fresh .rs232) (b ++ rest)).1.data = g.data ∧
+      (Seg.unpack (Seg.fresh .rs232) (b ++ rest)).1.block_status = g.block_status % 65536 / 8 * 8 + g.sync_bytes.length ∧
+      (g.block_status < 65536 → g.block_status % 8 = g.sync_bytes.length →
+        (Seg.unpack (Seg.fresh .rs232) (b ++ rest)).1.block_status = g.block_status) := by
+  obtain ⟨h7, h8⟩ := h.2.2.2.2.1 hk
+  have heff : effPayload g = dataRS232 (g.block_status % 65536 / 8) g.sync_bytes g.data := by
+    simp [effPayload, hk, dataRS232, wordsC, Code.size]
+  have hty := unpackRS232_eq (withBase (Seg.fresh .rs232) g.timedelta g.errorcode g.flags (effPayload g))
+    (g.block_status % 65536 / 8) g.sync_bytes g.data heff (by omega) h7 h8
+  have hok : TypedOK .rs232 g := by
+    simp only [TypedOK, typedUnpack]; rw [hty]
+  have hd : decodedSeg .rs232 g = { withBase (Seg.fresh .rs232) g.timedelta g.errorcode g.flags (effPayload g) with
+      block_status := g.block_status % 65536 / 8 * 8 + g.sync_bytes.length, sync_bytes := g.sync_bytes, data := g.data } := by
+    simp only [decodedSeg, typedUnpack]
+    show (Seg.unpackRS232 _).1 = _
+    rw [hty]
+  refine ⟨segBytes g, by rw [Seg_pack_eq g h], ?_⟩
+  rw [Seg_unpack_eq .rs232 g rest h hok, hd]
+  refine ⟨rfl, rfl, rfl, rfl, ?_⟩
+  intro h1 h2
+  show g.block_status % 65536 / 8 * 8 + g.sync_bytes.length = g.block_status
+  omega
+/-- joint witness: an RS-232 object whose status word has all upper bits set and whose low three bits (7) are NOT
+    the sync count (2) — well-formed; its status word comes back as 0xFFFA -/
+example : Seg_WF { Seg.fresh .rs232 with block_status := 0xFFFF, sync_bytes := [1, 2], data := [9] } ∧
+    ({ Seg.fresh .rs232 with block_status := 0xFFFF, sync_bytes := [1, 2], data := [9] } : Seg).kind = .rs232 ∧
+    0xFFFF % 65536 / 8 * 8 + ([1, 2] : List Nat).length = 0xFFFA :=
+  ⟨by simp [Seg_WF, Seg.fresh, effPayload], rfl, by decide⟩
 
 /-! ### NPD packets -/
 
@@ -291,5 +352,17 @@ example : NPD_WF { fresh with datatype := some 0xD0, mcastaddr := some 0xEB00000
     by simp [fresh], rfl, by omega, rfl, by omega, ?_, ?_⟩
   · intro g hg; simp at hg; subst hg; exact rawSeg_WF 1 2 3 _ (by omega) (by omega) (by omega) (by simp)
   · simp [segBytes_length, effPayload, rawSeg, Seg.fresh]
+/-- … and the two further hypotheses of `NPD_roundtrip` hold of the same packet (data type 0xD0 → 1553 class,
+    the segment's data holds a complete 1553 header) -/
+example : (∀ g ∈ [rawSeg 1 2 3 [0, 5, 1, 2, 9, 9]], TypedOK (kindOf 0xD0) g) ∧
+    (kindOf 0xD0 ≠ .rs232 ∨ ∀ g ∈ [rawSeg 1 2 3 [0, 5, 1, 2, 9, 9]], g.kind = .rs232) := by
+  refine ⟨?_, Or.inl (by decide)⟩
+  intro g hg; simp at hg; subst hg; rfl
+
+/-- `NPD_WF` fixes `hdrlen = 5` (the 20-byte header `pack` always emits, in 32-bit words): any other value
+    is written into the low nibble of byte 0 and makes the code's own decoder slice the segments at the
+    wrong offset — what `pack` emits is then rejected -/
+example : (unpack fresh (match (pack { fresh with datatype := some 0x10, mcastaddr := some 0xEB000001, timestamp := some 7, hdrlen := 6, segments := [rawSeg 1 2 3 [0, 5, 1, 2, 9, 9]] }).2 with
+    | .ok b => b | .error _ => [])).2.isOk = false := by decide
 
 end Acra.Props.C01
